@@ -500,16 +500,19 @@ def Alg.computeO6 (P : Prims) (a : Alg) (fileKey pw salts : Bytes) : Bytes × By
   let ks := slice salts 8 8
   (a.hash P pw vs a.userValue ++ vs ++ ks, cbc0Enc P (a.hash P pw ks a.userValue) fileKey)
 
-/-- `compute_permissions`: `rnd` = 4 random bytes.  AS CODED: `encrypt_block_mut(&mut bytes.into())`
-encrypts a temporary copy of the block (`[u8; 16] -> GenericArray` is by value); the block that is
-returned and stored as `Perms` is NOT encrypted (finding F-C06-c). The file key is not used. -/
-def Alg.computePerms (_P : Prims) (a : Alg) (_fileKey rnd : Bytes) : Bytes :=
+/-- the 16-byte block of `compute_permissions` before encryption: P (64 bit, low-order byte first),
+`T`/`F`, `adb`, 4 random bytes -/
+def Alg.permsPlain (a : Alg) (rnd : Bytes) : Bytes :=
   leBytes 8 (pValue a.permissions) ++ [if a.encryptMetadata then 84 else 70] ++ PERMS_TAG ++ rnd.take 4
 
-/-- `validate_permissions`: same slip — the decryption goes to a temporary, the checks look at the
-stored `Perms` bytes as they are. -/
-def Alg.validatePerms (_P : Prims) (a : Alg) (_fileKey : Bytes) : Except Err Unit :=
-  let b := a.permsEncrypted
+/-- `compute_permissions`: AES-256 ECB of that block under the file key (`rnd` = 4 random bytes) -/
+def Alg.computePerms (P : Prims) (a : Alg) (fileKey rnd : Bytes) : Bytes :=
+  P.aesEnc fileKey (a.permsPlain rnd)
+
+/-- `validate_permissions`: decrypt `Perms` with the file key, then check `adb`, the low 3 bytes
+of P and the `T`/`F` byte -/
+def Alg.validatePerms (P : Prims) (a : Alg) (fileKey : Bytes) : Except Err Unit :=
+  let b := P.aesDec fileKey a.permsEncrypted
   if slice b 9 3 ≠ PERMS_TAG then .error .incorrectPassword
   else if b.take 3 ≠ (leBytes 8 (pValue a.permissions)).take 3 then .error .incorrectPassword
   else if slice b 8 1 ≠ [if a.encryptMetadata then 84 else 70] then .error .incorrectPassword
